@@ -77,3 +77,47 @@ pub fn parse_events(args: &Args) {
         writeln!(out, "{ev}").unwrap();
     }
 }
+
+// ---------------------------------------------------------------------------------------------
+/// `flags` events: what the parser's state machine leaves in every table (is_implicit, is_dotted, position), for
+/// the comparison with the implementation-shaped model ParseStateImpl.tla (model drift, not a property).
+fn table_flags(t: &toml_edit::Table, path: &mut Vec<J>, out: &mut Vec<J>) {
+    out.push(json!({"path": path.clone(), "implicit": t.is_implicit(), "dotted": t.is_dotted(), "pos": t.position().unwrap_or(0)}));
+    for (k, item) in t.iter() {
+        path.push(proj::cps(k));
+        match item {
+            toml_edit::Item::Table(sub) => table_flags(sub, path, out),
+            toml_edit::Item::ArrayOfTables(a) => {
+                for (i, e) in a.iter().enumerate() {
+                    path.push(json!([-1, i]));
+                    table_flags(e, path, out);
+                    path.pop();
+                }
+            }
+            _ => {}
+        }
+        path.pop();
+    }
+}
+
+/// --in texts.ndjson
+pub fn flags_events(args: &Args) {
+    let recs = read_ndjson(args.req("in"));
+    let mut out = out_writer(args);
+    for r in &recs {
+        if r.get("text").is_none() {
+            continue;
+        }
+        let text = proj::from_cps(&r["text"]);
+        let (res, flags) = match catch_unwind(AssertUnwindSafe(|| toml_edit::DocumentMut::from_str(&text))) {
+            Ok(Ok(d)) => {
+                let mut fl = Vec::new();
+                table_flags(d.as_table(), &mut Vec::new(), &mut fl);
+                ("ok", fl)
+            }
+            Ok(Err(_)) => ("err", vec![]),
+            Err(_) => ("panic", vec![]),
+        };
+        writeln!(out, "{}", json!({"ev": "flags", "id": r["id"], "text": r["text"], "res": res, "flags": flags})).unwrap();
+    }
+}
